@@ -457,6 +457,10 @@ func parseRealms(lines []string) (realms []Realm, err error) {
 			}
 		}
 	}
+	if c != 0 {
+		// reached the end of the section inside a block that was never closed
+		return nil, InvalidErrorf("realms section: unpaired curly brackets, block of realm %s is not closed", name)
+	}
 	return
 }
 
